@@ -192,7 +192,7 @@ structure GasOut where
   cost : Nat
   mem : Mem
   callGasTemp : Nat
-deriving Repr
+deriving DecidableEq, Repr
 
 /-- mem + base + toWordSize(len)·perWord with the overflow checks of gasCallDataCopy / gasCodeCopy / gasSha3 / … -/
 def gasCopyLike (m : Mem) (memorySize base len perWord : Nat) : Option GasOut :=
@@ -419,37 +419,43 @@ def callWrap {W} (env : Env) (runChild : Frame → Db W → Nat → Res W) (k : 
       let db2 := if k == .call then (if valueNZ then db1.app i.xferEff else db1.app i.neutralEff) else db1
       finishCall (runCode runChild i gas depth ro' db2 t) id
 
+/-- Create after `run`: `if err == nil && !maxCodeSizeExceeded`: charge len(ret)·CreateDataGas and SetCode, or set
+    ErrCodeStoreOutOfGas -/
+def createStore {W} (env : Env) (i : StepIn W) (r : Res W) : Res W :=
+  if r.out = .ok && !(env.eip158 && r.retLen > maxCodeSize) then
+    if r.gas < r.retLen * createDataGas then { r with out := .fail .codeStoreOutOfGas }
+    else { r with gas := r.gas - r.retLen * createDataGas, db := r.db.app i.setCodeEff }
+  else r
+
+/-- Create, error handling: `if maxCodeSizeExceeded || (err != nil && (IsHomestead || err != ErrCodeStoreOutOfGas))
+    { RevertToSnapshot; if err != errExecutionReverted { UseGas(all) } }; if maxCodeSizeExceeded && err == nil { err = … }` -/
+def createFinish {W} (env : Env) (id : Nat) (maxCodeSizeExceeded : Bool) (r1 : Res W) : Res W :=
+  let mustRevert := maxCodeSizeExceeded || (r1.out.isErr && (env.homestead || r1.out != .fail .codeStoreOutOfGas))
+  let r2 : Res W :=
+    if mustRevert then
+      match r1.db.revert id with
+      | none => { r1 with out := .panic }
+      | some d => if r1.out = .revert then { r1 with db := d } else { r1 with db := d, gas := 0 }
+    else r1
+  if maxCodeSizeExceeded && r2.out = .ok then { r2 with out := .fail .maxCodeSize } else r2
+
 /-- evm.go Create -/
 def createWrap {W} (env : Env) (runChild : Frame → Db W → Nat → Res W) (i : StepIn W)
     (depth : Nat) (ro : Bool) (gas : Nat) (db : Db W) (t : Nat) : Res W :=
   if depth > callCreateDepth then ⟨.fail .depth, gas, db, t, 0, []⟩
   else if !i.canTransfer then ⟨.fail .insufficientBalance, gas, db, t, 0, []⟩
   else
+    -- nonce := GetNonce(caller); SetNonce(caller, nonce+1)   (before the snapshot)
     let db0 := db.app i.nonceEff
     if i.collision then ⟨.fail .collision, 0, db0, t, 0, []⟩
     else
       let (id, db1) := db0.snapshot
+      -- CreateAccount(contractAddr); SetNonce(contractAddr, 1) under EIP158; Transfer
       let db2 := db1.app i.xferEff
       -- run(evm, contract, nil): contract.CodeAddr is the fresh address, assumed not to be a precompile address
       let r := if i.codeEmpty then (⟨.ok, gas, db2, t, 0, []⟩ : Res W) else runChild (newFrame gas (depth + 1) ro) db2 t
       if r.out.abnormal then r
-      else
-        let maxCodeSizeExceeded := env.eip158 && r.retLen > maxCodeSize
-        -- err == nil && !maxCodeSizeExceeded: charge len(ret)·CreateDataGas, SetCode or ErrCodeStoreOutOfGas
-        let r1 : Res W :=
-          if r.out = .ok && !maxCodeSizeExceeded then
-            if r.gas < r.retLen * createDataGas then { r with out := .fail .codeStoreOutOfGas }
-            else { r with gas := r.gas - r.retLen * createDataGas, db := r.db.app i.setCodeEff }
-          else r
-        let mustRevert := maxCodeSizeExceeded ||
-          (r1.out.isErr && (env.homestead || r1.out != .fail .codeStoreOutOfGas))
-        let r2 : Res W :=
-          if mustRevert then
-            match r1.db.revert id with
-            | none => { r1 with out := .panic }
-            | some d => if r1.out = .revert then { r1 with db := d } else { r1 with db := d, gas := 0 }
-          else r1
-        if maxCodeSizeExceeded && r2.out = .ok then { r2 with out := .fail .maxCodeSize } else r2
+      else createFinish env id (env.eip158 && r.retLen > maxCodeSize) (createStore env i r)
 
 def execKind : ExecFn → Option CallKind
   | .opCall => some .call
@@ -515,42 +521,47 @@ def execLocal {W} (f : OpF) (i : StepIn W) (fr1 : Frame) (db1 : Db W) (t : Nat) 
     else if f.halts then .inl ⟨.ok, fr1.gas, db2, t + 1, retLenOf f i.args, [ev]⟩
     else .inr db2
 
-/-- Interpreter.Run on a frame; one unit of fuel per loop iteration. -/
-def run {W} (env : Env) (o : Nat → StepIn W) : Nat → Frame → Db W → Nat → Res W
-  | 0, fr, db, t => ⟨.outOfFuel, fr.gas, db, t, 0, []⟩
-  | fuel + 1, fr, db, t =>
-    let i := o t
-    match pre env i fr db t with
-    | .stop r => r
-    | .go f g memorySize db1 =>
-      let fr1 := paidFrame fr f g memorySize
-      let ev := eventOf fr i f g memorySize
-      if f.execFn = .opCreate then
-        -- opCreate: gas := contract.Gas; if EIP150 { gas -= gas/64 }; contract.UseGas(gas); evm.Create(...)
-        let fwd := if env.eip150 then fr1.gas - fr1.gas / 64 else fr1.gas
-        let r := createWrap env (run env o fuel) i fr.depth fr.ro fwd db1 (t + 1)
+/-- one iteration of Run's loop; `rec` is the interpreter used for callee frames and for the rest of this frame's loop -/
+def stepWith {W} (env : Env) (o : Nat → StepIn W) (rec : Frame → Db W → Nat → Res W)
+    (fr : Frame) (db : Db W) (t : Nat) : Res W :=
+  let i := o t
+  match pre env i fr db t with
+  | .stop r => r
+  | .go f g memorySize db1 =>
+    let fr1 := paidFrame fr f g memorySize
+    let ev := eventOf fr i f g memorySize
+    if f.execFn = .opCreate then
+      -- opCreate: gas := contract.Gas; if EIP150 { gas -= gas/64 }; contract.UseGas(gas); evm.Create(...)
+      let fwd := if env.eip150 then fr1.gas - fr1.gas / 64 else fr1.gas
+      let r := createWrap env rec i fr.depth fr.ro fwd db1 (t + 1)
+      if r.out.abnormal then { r with trace := ev :: r.trace }
+      else
+        -- contract.Gas += returnGas
+        let r' := rec { fr1 with gas := (fr1.gas - fwd + r.gas) % two64 } r.db r.tick
+        { r' with trace := ev :: (r.trace ++ r'.trace) }
+    else
+      match execKind f.execFn with
+      | some k =>
+        -- opCall & co: gas := evm.callGasTemp; if value ≠ 0 { gas += CallStipend } (CALL, CALLCODE only)
+        let hasValue := (k == .call || k == .callcode) && valueNZOf f i.args
+        let cg := if hasValue then (g.callGasTemp + callStipend) % two64 else g.callGasTemp
+        let r := callWrap env rec k i fr.depth fr.ro cg hasValue db1 (t + 1)
         if r.out.abnormal then { r with trace := ev :: r.trace }
         else
-          -- contract.Gas += returnGas
-          let r' := run env o fuel { fr1 with gas := (fr1.gas - fwd + r.gas) % two64 } r.db r.tick
+          let r' := rec { fr1 with gas := (fr1.gas + r.gas) % two64 } r.db r.tick
           { r' with trace := ev :: (r.trace ++ r'.trace) }
-      else
-        match execKind f.execFn with
-        | some k =>
-          -- opCall & co: gas := evm.callGasTemp; if value ≠ 0 { gas += CallStipend } (CALL, CALLCODE only)
-          let hasValue := (k == .call || k == .callcode) && valueNZOf f i.args
-          let cg := if hasValue then (g.callGasTemp + callStipend) % two64 else g.callGasTemp
-          let r := callWrap env (run env o fuel) k i fr.depth fr.ro cg hasValue db1 (t + 1)
-          if r.out.abnormal then { r with trace := ev :: r.trace }
-          else
-            let r' := run env o fuel { fr1 with gas := (fr1.gas + r.gas) % two64 } r.db r.tick
-            { r' with trace := ev :: (r.trace ++ r'.trace) }
-        | none =>
-          match execLocal f i fr1 db1 t ev with
-          | .inl r => r
-          | .inr db2 =>
-            let r' := run env o fuel fr1 db2 (t + 1)
-            { r' with trace := ev :: r'.trace }
+      | none =>
+        match execLocal f i fr1 db1 t ev with
+        | .inl r => r
+        | .inr db2 =>
+          let r' := rec fr1 db2 (t + 1)
+          { r' with trace := ev :: r'.trace }
+
+/-- Interpreter.Run on a frame; one unit of fuel per loop iteration (callee frames and the continuation of the loop both
+    run with the remaining fuel). -/
+def run {W} (env : Env) (o : Nat → StepIn W) : Nat → Frame → Db W → Nat → Res W
+  | 0, fr, db, t => ⟨.outOfFuel, fr.gas, db, t, 0, []⟩
+  | fuel + 1, fr, db, t => stepWith env o (run env o fuel) fr db t
 
 /-- top-level entry points as the harness uses them: evm.depth = 0, readOnly = false, oracle entry 0 describes the callee -/
 def topCall {W} (env : Env) (o : Nat → StepIn W) (fuel : Nat) (k : CallKind) (gas : Nat) (valueNZ : Bool) (db : Db W) : Res W :=
